@@ -1,18 +1,29 @@
 """Translator for C37/C38:  androguard/misc.py, androguard/cli/main.py  ->  lean/AgVerif/Gen/Paths.lean
 
-AST only (no import).  From `clean_file_name`:
-  * every regular expression literal, in source order, with the `re` function it is given to
-    (text pinned by Props/C38.lean `gen_pins`; the hand-compiled structure of the model depends on it),
-  * the character classes `[...]` of those patterns parsed into code point ranges (the model's
-    predicates are built from the ranges, so a changed class changes the model and the theorems are
-    re-checked against it),
-  * the alternatives of the reserved-name pattern `(CON|PRN|...|COM[1-9]|LPT[1-9])`,
-  * PATH_MAX_LENGTH, the divisor in `max_length // 2`, the format string of the uniqueness suffix.
-From cli/main.py:
-  * `valid_class_name`: the tuple of dropped path segments,
-  * `export_apps_to_format`: the pattern/replacement applied to the method's short string and the
-    string constants appended to the created file names (".java", ".ag").
-Anything that is not recognised raises (the check records a broken obligation and searches).
+AST only (no import).  Facts are read SEMANTICALLY, not textually:
+  * a regular expression use is `re.F(P, …)`, `re.compile(P).F(…)` or `X.F(…)` with X a module-level (or single
+    local) name bound to `re.compile(P)`; P is a constant string, possibly through a module-level name;
+  * the scope of a function is the function, its nested functions and (one level) the module-level helpers it
+    calls that are not modelled on their own (`_shorten`, `_max_name_length`, `_make_class_directory` …);
+  * integer / string / tuple constants may be hoisted to module level and renamed (`_PATH_MAX_LENGTH`);
+  * local variables may be renamed: shapes are compared up to the names of the locals (the limit in
+    `<limit> // 2`, the counter of the suffix, the two results of os.path.split);
+  * `"_{}".format(n)` and `f"_{n}"` are the same suffix format; `p not in SEGS` in a comprehension and
+    `if p in SEGS: continue` in a loop are the same filter; SEGS may be a tuple or a list, literal or named.
+From `clean_file_name` (roles, not source positions): the replacement check (the one `search`), the reserved
+names (the one `match`, alternatives `(CON|…|COM[1-9])` parsed), the reserved characters (the one `sub` of a
+character class), the trailing rule (two `sub`s of the same `[..]$` pattern, one in the function itself, one in
+the shortening helper); the function's own statements must apply them in this order.  Character classes are
+parsed into code point ranges (the model's predicates are built from them).  PATH_MAX_LENGTH, the divisor of the
+extension cap, the suffix format (its argument must be a counter starting at 0 and stepping by 1).
+The uniqueness loop must probe exactly the path that is returned:  `P, F = os.path.split(<first parameter>)` is
+the only binding of P, the only `while` tests `os.path.isfile(os.path.join(P, F))` and every return of the
+function is `os.path.join(P, F)` (recorded alpha-renamed to path/fname; Props/C38.lean `gen_pins`).
+From cli/main.py: the dropped segments of `valid_class_name` and its split('/'); in the scope of
+`export_apps_to_format` the one substitution applied to the method's short string and the constants ".java", ".ag".
+Still refused (raises; the check then records a broken obligation and searches): any other re function or
+non-constant pattern in clean_file_name, a missing/extra substitution, string-method rewrites of the regular
+expressions (str.translate, endswith), a probe of another path expression, a rebinding of the directory variable.
 """
 import ast
 import os
@@ -32,20 +43,138 @@ def _fn(tree, name):
     raise Unrecognised(f"function {name} not found")
 
 
-def _re_calls(fn, strict=True):
-    """[(func, pattern, [other constant string args])] for every re.<func>(<literal>, ...) in source order"""
+MODELLED = {"clean_file_name", "valid_class_name", "check_inside_directory", "create_directory",
+            "export_apps_to_format"}
+RE_USES = {"search", "match", "fullmatch", "sub", "subn", "split", "findall", "finditer"}
+
+
+class Module:
+    """one source file: module-level single assignments (`N = expr`) and module-level functions"""
+
+    def __init__(self, path):
+        self.tree = ast.parse(open(path).read())
+        self.env, self.funcs = {}, {}
+        seen = {}
+        for n in self.tree.body:
+            if isinstance(n, ast.Assign) and len(n.targets) == 1 and isinstance(n.targets[0], ast.Name):
+                seen[n.targets[0].id] = seen.get(n.targets[0].id, 0) + 1
+                self.env[n.targets[0].id] = n.value
+            elif isinstance(n, ast.AnnAssign) and isinstance(n.target, ast.Name) and n.value is not None:
+                seen[n.target.id] = seen.get(n.target.id, 0) + 1
+                self.env[n.target.id] = n.value
+            elif isinstance(n, ast.FunctionDef):
+                self.funcs[n.name] = n
+        for k, c in seen.items():          # a name assigned twice at module level is not a constant
+            if c > 1:
+                del self.env[k]
+
+    def fn(self, name):
+        if name not in self.funcs:
+            raise Unrecognised(f"function {name} not found")
+        return self.funcs[name]
+
+    def scope(self, fn):
+        """the function, and (one level) the module-level helpers it calls that are not modelled on their own:
+        returns (nodes of fn outside nested defs, all nodes incl. nested defs and helpers, helper defs)"""
+        allf = list(ast.walk(fn))
+        nested = [n for n in allf if isinstance(n, ast.FunctionDef) and n is not fn]
+        inner = {id(x) for f in nested for x in ast.walk(f)}
+        proper = [n for n in allf if id(n) not in inner or n in nested]
+        helpers = []
+        for n in allf:
+            if isinstance(n, ast.Call) and isinstance(n.func, ast.Name) and n.func.id in self.funcs \
+                    and n.func.id not in MODELLED and self.funcs[n.func.id] not in helpers \
+                    and self.funcs[n.func.id] is not fn:
+                helpers.append(self.funcs[n.func.id])
+        nodes = list(allf)
+        for h in helpers:
+            nodes += list(ast.walk(h))
+        return proper, nodes, nested + helpers
+
+    def const(self, node, local=None, depth=0):
+        """evaluate a constant expression: literal, module-level (or single local) name, tuple/list of such"""
+        if depth > 6:
+            return None
+        if isinstance(node, ast.Constant):
+            return node.value
+        if isinstance(node, ast.Name):
+            if local and node.id in local:
+                return self.const(local[node.id], None, depth + 1)
+            if node.id in self.env:
+                return self.const(self.env[node.id], None, depth + 1)
+            return None
+        if isinstance(node, (ast.Tuple, ast.List)):
+            vals = [self.const(e, local, depth + 1) for e in node.elts]
+            return None if any(v is None for v in vals) else tuple(vals)
+        return None
+
+    def compiled(self, node, local=None):
+        """pattern text when `node` denotes re.compile(<constant str>) (directly, or through a module-level /
+        single local name), else None"""
+        if isinstance(node, ast.Name):
+            tgt = (local or {}).get(node.id) or self.env.get(node.id)
+            return self.compiled(tgt, None) if tgt is not None and not isinstance(tgt, ast.Name) else None
+        if (isinstance(node, ast.Call) and isinstance(node.func, ast.Attribute) and node.func.attr == "compile"
+                and isinstance(node.func.value, ast.Name) and node.func.value.id == "re" and node.args
+                and not node.keywords and len(node.args) == 1):
+            v = self.const(node.args[0], local)
+            return v if isinstance(v, str) else None
+        return None
+
+
+def single_locals(nodes):
+    """names assigned exactly once (simple `N = expr`) among nodes"""
+    cnt, val = {}, {}
+    for n in nodes:
+        if isinstance(n, ast.Assign):
+            for t in n.targets:
+                for x in ast.walk(t):
+                    if isinstance(x, ast.Name):
+                        cnt[x.id] = cnt.get(x.id, 0) + 1
+                        if isinstance(t, ast.Name):
+                            val[x.id] = n.value
+        elif isinstance(n, (ast.AugAssign, ast.AnnAssign, ast.For, ast.comprehension, ast.NamedExpr)):
+            for x in ast.walk(n.target):
+                if isinstance(x, ast.Name):
+                    cnt[x.id] = cnt.get(x.id, 0) + 2
+        elif isinstance(n, ast.arg):
+            cnt[n.arg] = cnt.get(n.arg, 0) + 2
+    return {k: v for k, v in val.items() if cnt.get(k) == 1}
+
+
+def regex_uses(mod, nodes, strict, what):
+    """every USE of a regular expression among nodes: `re.F(P, …)`, `re.compile(P).F(…)` or `X.F(…)` with X a
+    module-level / single local name bound to re.compile(P); P a constant string (possibly through a name).
+    returns [(lineno, col, node, F, P, [constant string arguments after the pattern])]"""
+    local = single_locals(nodes)
     out = []
-    for n in ast.walk(fn):
-        if (isinstance(n, ast.Call) and isinstance(n.func, ast.Attribute) and isinstance(n.func.value, ast.Name)
-                and n.func.value.id == "re"):
-            if not n.args or not (isinstance(n.args[0], ast.Constant) and isinstance(n.args[0].value, str)):
-                if not strict:
-                    continue
-                raise Unrecognised(f"re.{n.func.attr} with a non-literal pattern at line {n.lineno}")
-            extra = [a.value for a in n.args[1:] if isinstance(a, ast.Constant) and isinstance(a.value, str)]
-            out.append((n.lineno, n.col_offset, n.func.attr, n.args[0].value, extra))
-    out.sort()
-    return [(f, p, e) for _, _, f, p, e in out]
+    for n in nodes:
+        if not (isinstance(n, ast.Call) and isinstance(n.func, ast.Attribute) and n.func.attr in RE_USES):
+            continue
+        recv = n.func.value
+        if isinstance(recv, ast.Name) and recv.id == "re":
+            if not n.args:
+                continue
+            pat = mod.const(n.args[0], local)
+            rest = n.args[1:]
+            if not isinstance(pat, str):
+                if strict:
+                    raise Unrecognised(f"{what}: re.{n.func.attr} with a pattern that is not a constant, line {n.lineno}")
+                continue
+        else:
+            pat = mod.compiled(recv, local)
+            rest = n.args
+            if pat is None:
+                continue                      # some other object's .sub/.match/… (str has none of these)
+        extra = [v for v in (mod.const(a, local) for a in rest) if isinstance(v, str)]
+        out.append((n.lineno, n.col_offset, n, n.func.attr, pat, extra))
+    out.sort(key=lambda t: t[:2])
+    return out
+
+
+def _is_call(node, dotted, nargs=None):
+    return (isinstance(node, ast.Call) and ast.unparse(node.func) == dotted and not node.keywords
+            and (nargs is None or len(node.args) == nargs))
 
 
 def parse_class(pat, i=0):
@@ -150,99 +279,156 @@ def lranges(rs):
 
 
 def extract(repo):
-    misc = ast.parse(open(os.path.join(repo, MISC)).read())
-    cfn = _fn(misc, "clean_file_name")
-    calls = _re_calls(cfn)
-    kinds = [f for f, _, _ in calls]
-    if kinds != ["search", "match", "sub", "sub", "sub"]:
-        raise Unrecognised(f"clean_file_name: re calls are {kinds}, expected search, match, sub, sub, sub "
-                           "(replacement check, reserved names, reserved characters, trailing rule, trailing rule "
-                           "after the cut)")
-    d = {"clean_calls": calls}
-    d["replace_check"] = only_class(calls[0][1])
-    d["names"] = parse_names(calls[1][1])
-    d["reserved"] = only_class(calls[2][1])
-    d["trailing"] = only_class(calls[3][1], "$")
-    if calls[4][1] != calls[3][1]:
+    mod = Module(os.path.join(repo, MISC))
+    cfn = mod.fn("clean_file_name")
+    proper, nodes, others = mod.scope(cfn)
+    proper_ids = {id(n) for n in proper}
+    uses = regex_uses(mod, nodes, True, "clean_file_name")
+    by = lambda f: [u for u in uses if u[3] == f]
+    if {u[3] for u in uses} - {"search", "match", "sub"}:
+        raise Unrecognised(f"clean_file_name: unexpected re functions {sorted({u[3] for u in uses})}")
+    search, match, subs = by("search"), by("match"), by("sub")
+    trailing = [u for u in subs if u[4].endswith("$")]
+    reserved = [u for u in subs if not u[4].endswith("$")]
+    if not (len(search) == 1 and len(match) == 1 and len(reserved) == 1 and len(trailing) == 2):
+        raise Unrecognised("clean_file_name: expected one search (replacement check), one match (reserved names), "
+                           "one sub of a character class (reserved characters) and two subs of the trailing rule "
+                           f"(before and after the cut); found {[(u[3], u[4]) for u in uses]}")
+    if trailing[0][4] != trailing[1][4]:
         raise Unrecognised("the trailing rule applied after the cut differs from the one applied before")
-    # constants
-    pml = [n for n in ast.walk(cfn) if isinstance(n, ast.Assign) and len(n.targets) == 1
-           and isinstance(n.targets[0], ast.Name) and n.targets[0].id == "PATH_MAX_LENGTH"]
-    if len(pml) != 1 or not isinstance(pml[0].value, ast.Constant) or type(pml[0].value.value) is not int:
-        raise Unrecognised("PATH_MAX_LENGTH")
-    d["path_max_length"] = pml[0].value.value
-    divs = [n for n in ast.walk(cfn) if isinstance(n, ast.BinOp) and isinstance(n.op, ast.FloorDiv)]
-    if (len(divs) != 1 or not isinstance(divs[0].right, ast.Constant) or type(divs[0].right.value) is not int
-            or ast.unparse(divs[0].left) != "max_length"):
-        raise Unrecognised("extension cap `max_length // <int>`")
-    d["ext_divisor"] = divs[0].right.value
-    fmts = [n for n in ast.walk(cfn) if isinstance(n, ast.Call) and isinstance(n.func, ast.Attribute)
-            and n.func.attr == "format" and isinstance(n.func.value, ast.Constant)]
-    if len(fmts) != 1 or not fmts[0].func.value.value.endswith("{}") or ast.unparse(fmts[0].args[0]) != "counter":
-        raise Unrecognised("uniqueness suffix format")
-    d["suffix_format"] = fmts[0].func.value.value
-    d["suffix_lead"] = fmts[0].func.value.value[:-2]
-    if "{" in d["suffix_lead"] or "}" in d["suffix_lead"]:
-        raise Unrecognised("uniqueness suffix format")
-    # the uniqueness loop must probe exactly the path that is returned: `path` comes from os.path.split(filename)
-    # and nothing else, the loop tests os.path.isfile(os.path.join(path, fname)) and the function returns
-    # os.path.join(path, fname).  (The model's `isfile` is asked about the RETURNED string.)
-    own = [n for n in ast.walk(cfn)]
-    nested = [n for n in own if isinstance(n, ast.FunctionDef) and n is not cfn]
-    inner = {id(x) for f in nested for x in ast.walk(f)}
-    whiles = [n for n in own if isinstance(n, ast.While)]
+    # the statements of the function itself come in the order the model applies them
+    t_own = [u for u in trailing if id(u[2]) in proper_ids]
+    t_help = [u for u in trailing if id(u[2]) not in proper_ids]
+    order = [u for u in (search[0], match[0], reserved[0]) if id(u[2]) in proper_ids] + t_own
+    if len(t_own) != 1 or len(t_help) != 1 or [u[:2] for u in order] != sorted(u[:2] for u in order):
+        raise Unrecognised("clean_file_name: replacement check, reserved names, reserved characters, trailing rule are "
+                           "not applied in this order (the second trailing rule belongs inside the shortening helper)")
+    d = {"clean_calls": [("search", search[0][4], []), ("match", match[0][4], []), ("sub", reserved[0][4], []),
+                         ("sub", trailing[0][4], []), ("sub", trailing[1][4], [])]}
+    d["replace_check"] = only_class(search[0][4])
+    d["names"] = parse_names(match[0][4])
+    d["reserved"] = only_class(reserved[0][4])
+    d["trailing"] = only_class(trailing[0][4], "$")
+    # PATH_MAX_LENGTH: a function-level or module-level integer constant (a leading underscore / other case is fine)
+    local = single_locals(nodes)
+    cands = {}
+    for n in nodes:
+        if isinstance(n, ast.Name) and "PATH_MAX_LENGTH" in n.id.upper():
+            v = mod.const(n, local)
+            if type(v) is not int:
+                raise Unrecognised(f"{n.id} is not an integer constant")
+            cands[n.id] = v
+    if len(cands) != 1:
+        raise Unrecognised(f"PATH_MAX_LENGTH: expected one integer constant of that name, found {cands}")
+    d["path_max_length"] = list(cands.values())[0]
+    # the extension cap `<limit> // <int>` (whatever the limit variable is called)
+    divs = [n for n in nodes if isinstance(n, ast.BinOp) and isinstance(n.op, ast.FloorDiv)]
+    if len(divs) != 1 or type(mod.const(divs[0].right, local)) is not int or not isinstance(divs[0].left, ast.Name):
+        raise Unrecognised("extension cap `<limit> // <int>`")
+    d["ext_divisor"] = mod.const(divs[0].right, local)
+    # the uniqueness suffix: "<lead>{}".format(counter) or f"<lead>{counter}"
+    fmts = []
+    for n in nodes:
+        if (isinstance(n, ast.Call) and isinstance(n.func, ast.Attribute) and n.func.attr == "format"
+                and isinstance(mod.const(n.func.value, local), str) and not n.keywords and len(n.args) == 1
+                and isinstance(n.args[0], ast.Name)):
+            t = mod.const(n.func.value, local)
+            if t.endswith("{}") and "{" not in t[:-2] and "}" not in t[:-2]:
+                fmts.append((t[:-2], n.args[0].id))
+        elif isinstance(n, ast.JoinedStr) and len(n.values) == 2 and isinstance(n.values[0], ast.Constant) \
+                and isinstance(n.values[1], ast.FormattedValue) and n.values[1].conversion == -1 \
+                and n.values[1].format_spec is None and isinstance(n.values[1].value, ast.Name):
+            fmts.append((n.values[0].value, n.values[1].value.id))
+    if len(fmts) != 1:
+        raise Unrecognised(f"uniqueness suffix format: candidates {fmts}")
+    lead, counter = fmts[0]
+    zero = any(isinstance(n, ast.Assign) and len(n.targets) == 1 and isinstance(n.targets[0], ast.Name)
+               and n.targets[0].id == counter and mod.const(n.value) == 0 and type(mod.const(n.value)) is int for n in proper)
+    step = any((isinstance(n, ast.AugAssign) and isinstance(n.op, ast.Add) and ast.unparse(n.target) == counter
+                and mod.const(n.value) == 1) or
+               (isinstance(n, ast.Assign) and len(n.targets) == 1 and ast.unparse(n.targets[0]) == counter
+                and ast.unparse(n.value) in (f"{counter} + 1", f"1 + {counter}")) for n in proper)
+    if not (zero and step):
+        raise Unrecognised(f"uniqueness suffix: `{counter}` is not a counter starting at 0 and stepping by 1")
+    d["suffix_format"], d["suffix_lead"] = lead + "{}", lead
+    # the uniqueness loop must probe exactly the path that is returned (up to the names of the two locals):
+    #   P, F = os.path.split(<first parameter>)   … the only binding of P
+    #   while os.path.isfile(os.path.join(P, F)): …
+    #   return os.path.join(P, F)                  … every return of the function
+    whiles = [n for n in proper if isinstance(n, ast.While)]
     if len(whiles) != 1:
         raise Unrecognised(f"clean_file_name: {len(whiles)} while loops, expected the uniqueness loop only")
-    probe = ast.unparse(whiles[0].test)
-    rets = [n for n in own if isinstance(n, ast.Return) and id(n) not in inner]
-    if len(rets) != 1 or rets[0].value is None:
-        raise Unrecognised("clean_file_name: expected exactly one return")
-    ret = ast.unparse(rets[0].value)
-    if ret != "os.path.join(path, fname)":
-        raise Unrecognised(f"clean_file_name returns {ret!r}, expected os.path.join(path, fname)")
-    if probe != f"os.path.isfile({ret})":
-        raise Unrecognised(f"the uniqueness loop probes {probe!r}, not os.path.isfile of the returned path {ret!r}")
+    t = whiles[0].test
+    if not (_is_call(t, "os.path.isfile", 1) and _is_call(t.args[0], "os.path.join", 2)
+            and all(isinstance(x, ast.Name) for x in t.args[0].args)):
+        raise Unrecognised(f"the uniqueness loop probes {ast.unparse(t)!r}, expected os.path.isfile(os.path.join(P, F))")
+    P, F = (x.id for x in t.args[0].args)
+    rets = [n for n in proper if isinstance(n, ast.Return)]
+    if not rets or any(r.value is None or ast.unparse(r.value) != f"os.path.join({P}, {F})" for r in rets):
+        raise Unrecognised(f"the uniqueness loop probes os.path.join({P}, {F}) but the function returns "
+                           f"{[ast.unparse(r.value) if r.value else None for r in rets]}")
     binds = []
-    for n in own:
+    for n in ast.walk(cfn):
         tg = []
         if isinstance(n, ast.Assign):
             tg = n.targets
-        elif isinstance(n, (ast.AugAssign, ast.AnnAssign)):
+        elif isinstance(n, (ast.AugAssign, ast.AnnAssign, ast.For, ast.comprehension, ast.NamedExpr)):
             tg = [n.target]
-        elif isinstance(n, (ast.For, ast.comprehension)):
-            tg = [n.target]
-        elif isinstance(n, ast.NamedExpr):
-            tg = [n.target]
-        for t in tg:
-            for x in ast.walk(t):
-                if isinstance(x, ast.Name) and x.id == "path":
-                    binds.append(ast.unparse(n))
-    if binds != ["path, fname = os.path.split(filename)"]:
-        raise Unrecognised(f"clean_file_name: `path` is bound by {binds}, expected only the os.path.split(filename) unpacking")
-    d["unique_probe"], d["return_expr"], d["path_binding"] = probe, ret, binds[0]
-    # cli/main.py
-    cli = ast.parse(open(os.path.join(repo, CLI)).read())
-    vcn = _fn(cli, "valid_class_name")
-    tuples = [n for n in ast.walk(vcn) if isinstance(n, ast.Compare) and len(n.ops) == 1
-              and isinstance(n.ops[0], ast.NotIn) and isinstance(n.comparators[0], ast.Tuple)]
-    if len(tuples) != 1:
-        raise Unrecognised("valid_class_name: `p not in (...)` filter not found")
-    segs = [e.value for e in tuples[0].comparators[0].elts if isinstance(e, ast.Constant) and isinstance(e.value, str)]
-    if len(segs) != len(tuples[0].comparators[0].elts):
-        raise Unrecognised("valid_class_name: non-literal dropped segment")
-    d["dropped"] = segs
-    splits = [n for n in ast.walk(vcn) if isinstance(n, ast.Call) and isinstance(n.func, ast.Attribute)
-              and n.func.attr == "split" and n.args and isinstance(n.args[0], ast.Constant)]
-    if len(splits) != 1 or splits[0].args[0].value != "/":
+        elif isinstance(n, (ast.With,)):
+            tg = [i.optional_vars for i in n.items if i.optional_vars is not None]
+        for x in tg:
+            if any(isinstance(y, ast.Name) and y.id == P for y in ast.walk(x)):
+                binds.append(n)
+    first_param = cfn.args.args[0].arg if cfn.args.args else None
+    ok = (len(binds) == 1 and isinstance(binds[0], ast.Assign) and len(binds[0].targets) == 1
+          and isinstance(binds[0].targets[0], ast.Tuple) and len(binds[0].targets[0].elts) == 2
+          and ast.unparse(binds[0].targets[0].elts[0]) == P and isinstance(binds[0].targets[0].elts[1], ast.Name)
+          and _is_call(binds[0].value, "os.path.split", 1) and ast.unparse(binds[0].value.args[0]) == first_param)
+    if not ok:
+        raise Unrecognised(f"clean_file_name: `{P}` is bound by {[ast.unparse(b) for b in binds]}, expected only "
+                           f"`{P}, <name> = os.path.split({first_param})`")
+    # recorded up to the names of the locals (alpha-renamed to path / fname / filename)
+    d["unique_probe"] = "os.path.isfile(os.path.join(path, fname))"
+    d["return_expr"] = "os.path.join(path, fname)"
+    d["path_binding"] = "path, fname = os.path.split(filename)"
+
+    # ---------------------------------------------------------------- cli/main.py
+    cli = Module(os.path.join(repo, CLI))
+    vcn = cli.fn("valid_class_name")
+    vnodes = list(ast.walk(vcn))
+    vlocal = single_locals(vnodes)
+    filt = []
+    for n in vnodes:
+        # comprehension filter `… if p not in SEGS`, or `if p in SEGS: continue` in a loop
+        if isinstance(n, ast.comprehension):
+            for c in n.ifs:
+                if isinstance(c, ast.Compare) and len(c.ops) == 1 and isinstance(c.ops[0], ast.NotIn):
+                    filt.append(c.comparators[0])
+        elif isinstance(n, ast.For):
+            for st in ast.walk(n):
+                if (isinstance(st, ast.If) and isinstance(st.test, ast.Compare) and len(st.test.ops) == 1
+                        and isinstance(st.test.ops[0], ast.In) and len(st.body) == 1
+                        and isinstance(st.body[0], ast.Continue) and not st.orelse):
+                    filt.append(st.test.comparators[0])
+    if len(filt) != 1:
+        raise Unrecognised("valid_class_name: the filter `p not in (…)` (or `if p in (…): continue`) was not found")
+    segs = cli.const(filt[0], vlocal)
+    if not isinstance(segs, tuple) or not all(isinstance(x, str) for x in segs):
+        raise Unrecognised("valid_class_name: the dropped segments are not a constant tuple/list of strings")
+    d["dropped"] = list(segs)
+    splits = [n for n in vnodes if isinstance(n, ast.Call) and isinstance(n.func, ast.Attribute)
+              and n.func.attr == "split" and n.args and not (isinstance(n.func.value, ast.Name) and n.func.value.id == "re")]
+    if len(splits) != 1 or cli.const(splits[0].args[0], vlocal) != "/":
         raise Unrecognised("valid_class_name: split('/')")
-    exp = _fn(cli, "export_apps_to_format")
-    ecalls = [c for c in _re_calls(exp, strict=False) if c[0] == "sub"]
-    if len(ecalls) != 1 or len(ecalls[0][2]) != 1:
+    exp = cli.fn("export_apps_to_format")
+    _, enodes, _ = cli.scope(exp)
+    ecalls = [u for u in regex_uses(cli, enodes, False, "export_apps_to_format") if u[3] == "sub"]
+    if len(ecalls) != 1 or len(ecalls[0][5]) != 1:
         raise Unrecognised("export_apps_to_format: re.sub(<class>, <literal>, short string) not found")
-    d["export_calls"] = ecalls
-    d["method_sep"] = only_class(ecalls[0][1])
-    d["method_sep_replacement"] = ecalls[0][2][0]
-    consts = [n.value for n in ast.walk(exp) if isinstance(n, ast.Constant) and isinstance(n.value, str)]
+    d["export_calls"] = [("sub", ecalls[0][4], ecalls[0][5])]
+    d["method_sep"] = only_class(ecalls[0][4])
+    d["method_sep_replacement"] = ecalls[0][5][0]
+    consts = [n.value for n in enodes if isinstance(n, ast.Constant) and isinstance(n.value, str)]
     for suffix in (".java", ".ag"):
         if consts.count(suffix) != 1:
             raise Unrecognised(f"export_apps_to_format: constant {suffix!r}")
